@@ -25,8 +25,12 @@
  *                       urcu_bp_exit() run.  Up to 140 threads.
  *   thr <seed> <nops>   the same generator on real pthreads (one runs at a time): real TLS, real
  *                       key destructor at thread exit, real fork().  Up to 70 threads.
- *   dl <which>          directed: deliver a signal while urcu_bp_exit() (which=0, thread exit path)
- *                       or _urcu_bp_init() (which=1) holds init_lock with signals open.
+ *   dl <which>          directed: raise a signal while urcu_bp_exit() (which=0, thread exit path) or
+ *                       _urcu_bp_init() called with signals open (which=1) holds init_lock.  which=0
+ *                       is the regression for the defect repaired by /repo commit 760a93b (mask
+ *                       restored before urcu_bp_exit(): the handler re-registers and self-deadlocks
+ *                       on init_lock); on the repaired code the signal stays pending until the mask is
+ *                       restored.
  * A SIGUSR1 handler that executes urcu_bp_read_lock()/urcu_bp_read_unlock() is raised at hook
  * visits chosen from the seed (before/after every interposed call of an operation).
  *
@@ -558,7 +562,8 @@ static int handler_depth;
 static int sig_phase;			/* 0 pre, 1 post */
 static int deferred;
 static int n_raised, n_skipped_dl, n_entered;
-static int dl_point = -1;		/* directed: fire when init_lock is held and signals are open */
+static int dl_point = -1;		/* directed: fire when init_lock is held by this thread */
+static int n_dl_fired, n_dl_open;
 
 static void handler(int sig)
 {
@@ -592,7 +597,8 @@ static void pt(int post)
 	 * code (finding); excluded from the random plans, exercised by the directed mode `dl`. */
 	danger = mine(0) && !really_blocked();
 	if (dl_point >= 0) {
-		if (danger && dl_point-- == 0) do_raise(post);
+		/* directed: the first visit at which this thread holds init_lock */
+		if (mine(0) && dl_point-- == 0) { n_dl_fired++; if (danger) n_dl_open++; do_raise(post); }
 		return;
 	}
 	for (i = 0; i < nfire; i++)
@@ -861,11 +867,11 @@ static int run_random(unsigned long seed, int nops)
 	return 0;
 }
 
-/* directed: a signal while init_lock is held with signals open.  which = 0: in urcu_bp_exit() on
- * the thread-exit path (after the mask has been restored); which = 1: in _urcu_bp_init(). */
+/* directed: a signal raised while init_lock is held.  which = 0: in urcu_bp_exit() on the thread-exit
+ * path; which = 1: in _urcu_bp_init() called with signals open (constructor situation). */
 static int run_dl(int which)
 {
-	printf("# directed: signal while init_lock is held with signals open (%s)\n", which ? "_urcu_bp_init" : "urcu_bp_exit");
+	printf("# directed: signal raised while init_lock is held (%s)\n", which ? "_urcu_bp_init" : "urcu_bp_exit");
 	printf("init %d\n", urcu_bp_refcount);
 	print_state();
 	if (which == 0) {
@@ -880,7 +886,8 @@ static int run_dl(int which)
 		_urcu_bp_init();
 		sig_enabled = 0;
 	}
-	printf("# no deadlock\n");
+	printf("# no deadlock: fired=%d with_signals_open=%d entered=%d\n", n_dl_fired, n_dl_open, n_entered);
+	if (!n_dl_fired || !n_entered) oracle("window", "directed run did not deliver its signal");
 	return 0;
 }
 
